@@ -235,9 +235,12 @@ def ls_models(ctx, case):
     m0 = thr + case["dm0"]
     M = m0 + mD + case["dM"]
     two_ls = case["two_ls"]
-    # R(1+) -> B(1-) C(0-): (l,s) = (0,1),(2,1); R(1-) -> B(1-)C(0-): (1,1)
-    Pr = 1 if two_ls else -1
-    r = {"pair": [0, 1], "J": 1, "P": Pr, "mass": m0, "width": case["width"], "model": model, "popts": {}}
+    n_ls = case.get("n_ls") or (2 if two_ls else 1)
+    # R(1-) -> B(1-)C(0-): (1,1);  R(1+) -> B(1-) C(0-): (0,1),(2,1)
+    # R(1+) -> B(1-) C(1-): (0,1),(2,1),(2,2);  R(2+) -> B(1-) C(1-): five couplings
+    Jr, Pr, Jc = {1: (1, -1, 0), 2: (1, 1, 0), 3: (1, 1, 1), 5: (2, 1, 1)}[n_ls]
+    want_ls = {1: [(1, 1)], 2: [(0, 1), (2, 1)], 3: [(0, 1), (2, 1), (2, 2)], 5: [(2, 0), (2, 1), (0, 2), (2, 2), (4, 2)]}[n_ls]
+    r = {"pair": [0, 1], "J": Jr, "P": Pr, "mass": m0, "width": case["width"], "model": model, "popts": {}}
     if model == "BWR_LS":
         r["popts"]["fix_bug1"] = bool(case["fix_bug1"])
     if model == "MultiBWR":
@@ -245,7 +248,7 @@ def ls_models(ctx, case):
         del r["width"]
     spec = {
         "top": {"J": 1, "P": -1, "mass": M},
-        "finals": [{"J": 1, "P": -1, "mass": m1}, {"J": 0, "P": -1, "mass": m2}, {"J": 0, "P": -1, "mass": mD}],
+        "finals": [{"J": 1, "P": -1, "mass": m1}, {"J": Jc, "P": -1, "mass": m2}, {"J": 0, "P": -1, "mass": mD}],
         "res": [r],
     }
     for rr in spec["res"]:
@@ -256,14 +259,18 @@ def ls_models(ctx, case):
     R = nm["res"][0]
     p = amp.decay_group.get_particle(R)
     ls = [tuple(x) for x in p.decay[0].get_ls_list()]
-    ctx.check(ls == ([(0, 1), (2, 1)] if two_ls else [(1, 1)]), "ls_list", str(ls))
+    ctx.check(sorted(ls) == sorted(want_ls), "ls_list", str(ls))
     setp = {}
     theta = case["theta"]
-    if model == "BWR_LS" and two_ls:
-        setp[R + "_theta0"] = theta
+    thetas = [theta + 0.37 * k for k in range(len(ls) - 1)]
+    if model == "BWR_LS":
+        for k, th in enumerate(thetas):
+            setp["%s_theta%d" % (R, k)] = th
     coeff = None
     if model == "MultiBWR":
-        coeff = np.array(case["coeff"], dtype=float).reshape(-1, 2)[: 2 * len(ls)].reshape(len(ls), 2, 2)
+        cf = np.array(case["coeff"], dtype=float).reshape(-1, 2)
+        cf = np.concatenate([cf] * 4)[: 2 * len(ls)]
+        coeff = cf.reshape(len(ls), 2, 2)
         for i in range(len(ls)):
             for k in range(2):
                 if (i, k) == (0, 0):
@@ -280,9 +287,17 @@ def ls_models(ctx, case):
     lib = [np.asarray(x) for x in out]
     q, q0 = np.sqrt(q2), math.sqrt(q02)
     cls = [model, "n_ls=%d" % len(ls)]
+    two_ls = len(ls) == 2
     sig = None
     if model == "BWR_LS":
-        gam = [math.cos(theta), math.sin(theta)] if two_ls else [1.0]
+        # documented normalisation: (cos t0, sin t0 cos t1, ..., prod sin t_i)
+        gam = []
+        f_ = 1.0
+        for th in thetas:
+            gam.append(f_ * math.cos(th))
+            f_ *= math.sin(th)
+        gam.append(f_)
+        ctx.check(abs(sum(x * x for x in gam) - 1) < 1e-12, "harness_gamma_norm", "")
         g = [gam[i] * (q / q0) ** l * refmath.bprime(l, q, q0, D) for i, (l, s) in enumerate(ls)]
         rho_ratio = (q / m) / (q0 / m0)
         den = m0**2 - m**2 - 1j * m0 * case["width"] * rho_ratio * sum(x * x for x in g)
@@ -331,10 +346,9 @@ def ls_models(ctx, case):
         dom = p.get_sympy_dom(*var)
         flat = [var[0], var[1], var[2]] + list(var[3]) + [var[4], var[5]]
         f = sym.lambdify(flat, dom, "numpy")
-        ths = [theta] if two_ls else []
+        ths = thetas
         sel = m[::6]
         dval = np.array([complex(f(complex(mm), m0, case["width"], *ths, m1, m2)) for mm in sel])
-        gam = [math.cos(theta), math.sin(theta)] if two_ls else [1.0]
         for i, (l, s) in enumerate(ls):
             gi = gam[i] * (q[::6] / q0) ** l * refmath.bprime(l, q[::6], q0, D)
             prod = dval * lib[i][::6] / gi
@@ -409,6 +423,7 @@ ls_case_st = st.fixed_dictionaries(
         "model": st.sampled_from(["BWR_LS", "BWR_LS", "BWR_LS2", "MultiBWR"]),
         "fix_bug1": st.just(True),
         "two_ls": st.booleans(),
+        "n_ls": st.sampled_from([1, 2, 3, 5]),
         "m1": mass_st,
         "m2": mass_st,
         "mD": mass_st,
